@@ -149,6 +149,11 @@ func GenRuleSet(t *rapid.T, o RuleOpts) *Generated {
 		o.MaxRules = 6
 	}
 	ns := rapid.IntRange(1, o.MaxStates).Draw(t, "nstates")
+	stateNames := stateNames
+	if !o.IdentNames && rapid.IntRange(0, 3).Draw(t, "oddstates") == 0 {
+		// state names are free text: quotes, backslashes, control characters, non-ASCII
+		stateNames = []string{"Root", "S\x1b1", "S é", "S\"q\\"}
+	}
 	g := &Generated{RS: &RuleSet{}, Pats: map[string][]PatInfo{}}
 	type pooled struct {
 		name, pattern string
